@@ -65,18 +65,34 @@ From NV Require ExDefs ExSpec ExSim ExUndo.
 
 (* ANY top-level command line -- ex_command = ex_exec + the closing lbuf_modified --, from any state whose line
    buffer is related to an UndoDefs buffer u: the line buffer afterwards is related to u after a list of UndoDefs
-   operations followed by ONE Bump.  If the line is quiet (ExSim.quiet_line: every command of the line, also inside
-   the command lists of g/v, recursively, is one of a i c d k p pu r rs s y = ec q!, the nameless command or an unknown
-   word, and there is no @) the operations are edit calls only: the line is exactly one `CEdits l` of C04_disciplined.
-   Conventions, as in the code: `w` bumps (lbuf_saved), so `s/a/b/|w|s/c/d/` is two steps; `@` re-enters ex_command and
-   bumps; `!` without writeany asks lbuf_modified first (a bump); `u` inside a `|` line is an Undo operation in the
-   middle of a step.  Those lines are covered by the first conjunct only. *)
+   operations followed by ONE Bump (also for lines with w @ ! u: `w` bumps (lbuf_saved), `@` re-enters ex_command and
+   bumps, `!` without writeany asks lbuf_modified first (a bump), `u` inside a `|` line is an Undo in the middle of a step). *)
 Theorem C04_ex_command_ops : forall rvalid rfind filter readfile curpath fuel ln s u, ExUndo.Rl (ExDefs.lb s) u ->
   exists ops,
-    ExUndo.Rl (ExDefs.lb (fst (ExDefs.ex_command rvalid rfind filter readfile curpath fuel ln s))) (run_ops u (ops ++ [Bump])) /\
-    (ExSim.quiet_line fuel ln = true -> exists l, ops = map mk_edit l).
+    ExUndo.Rl (ExDefs.lb (fst (ExDefs.ex_command rvalid rfind filter readfile curpath fuel ln s))) (run_ops u (ops ++ [Bump])).
 Proof. exact ExUndo.ex_command_ops. Qed.
 Print Assumptions C04_ex_command_ops.
+
+(* a QUIET line (ExSim.quiet_line, a pure function of the bytes: every command of the line, also inside the command lists of
+   g/v, recursively, is one of a i c d k p pu r rs s y = ec q!, the nameless command or an unknown word; no u w ! @): edit
+   calls only -- the line is exactly ONE `CEdits l` of C04_disciplined, however many edits it makes *)
+Theorem C04_ex_quiet_line_is_one_command : forall rvalid rfind filter readfile curpath fuel ln s u,
+  ExUndo.Rl (ExDefs.lb s) u -> ExSim.quiet_line fuel ln = true ->
+  exists l, ExUndo.Rl (ExDefs.lb (fst (ExDefs.ex_command rvalid rfind filter readfile curpath fuel ln s)))
+                      (run_ops u (ops_of_cmd (CEdits l))).
+Proof. exact ExUndo.ex_command_quiet. Qed.
+Print Assumptions C04_ex_quiet_line_is_one_command.
+
+(* the convention about `w` (and `!`) as a theorem: a line without u and @ (ExSim.nou_line: w, w! and ! allowed) is a
+   non-empty LIST of CEdits commands -- every bump inside the line (w's lbuf_saved, the modified-question of !) closes an
+   undo step, so `s/a/b/|w|s/c/d/` is two steps *)
+Theorem C04_ex_line_with_w_is_several_commands : forall rvalid rfind filter readfile curpath fuel ln s u,
+  ExUndo.Rl (ExDefs.lb s) u -> ExSim.nou_line fuel ln = true ->
+  exists ls, ls <> [] /\
+    ExUndo.Rl (ExDefs.lb (fst (ExDefs.ex_command rvalid rfind filter readfile curpath fuel ln s)))
+              (run_ops u (concat (map (fun l => ops_of_cmd (CEdits l)) ls))).
+Proof. exact ExUndo.ex_command_nou. Qed.
+Print Assumptions C04_ex_line_with_w_is_several_commands.
 
 (* after ANY script (any lines, also with w @ ! u) run from the initial state of `vi -s -e file`, a quiet command line
    that changes the text, followed by the command line `u`: the text is exactly what it was before that line, and `u`
@@ -122,5 +138,6 @@ Example C04_ex_nonvacuous :
   ExSim.quiet_line 10 gl = true /\
   ExSpec.texts (fst (ex 10 gl s0)) = [[97; 120; 121]; [98; 120; 121]]%N /\
   ExSpec.texts (fst (ex 10 ExUndo.line_u (fst (ex 10 gl s0)))) = [[97]; [98]]%N /\
-  ExSim.quiet_line 10 [49;100;124;119]%N = false /\ ExSim.quiet_line 10 [117]%N = false /\ ExSim.quiet_line 10 [64;97]%N = false.
+  ExSim.quiet_line 10 [49;100;124;119]%N = false /\ ExSim.quiet_line 10 [117]%N = false /\ ExSim.quiet_line 10 [64;97]%N = false /\
+  ExSim.nou_line 10 [49;100;124;119;124;49;100]%N = true /\ ExSim.nou_line 10 [117]%N = false.
 Proof. vm_compute. repeat split. Qed.
